@@ -30,6 +30,11 @@ static void add_csv(Case& c, const std::string& t) {
             if (o & 4) { opt.trim(true).comment_starter('#').quote_escape_char('\\').subfield_delimiter(';').unquoted_empty_value_is_null(true).ignore_empty_lines(false); opt.column_types("integer,string*"); }
             auto r = jsoncons::csv::try_decode_csv<ojson>(t, opt); if (r) { std::string s; r->dump(s); } });
     }
+    // the column-caching mapping with every combination of the options that drop or split fields
+    for (int o = 0; o < 8; ++o) c.entries.push_back([t, o] {
+        jsoncons::csv::csv_options opt; opt.assume_header(true).mapping_kind(jsoncons::csv::csv_mapping_kind::m_columns);
+        if (o & 1) opt.subfield_delimiter(';'); if (o & 2) opt.ignore_empty_values(true); if (o & 4) opt.ignore_empty_lines(false).unquoted_empty_value_is_null(true).infer_types(false);
+        auto r = jsoncons::csv::try_decode_csv<ojson>(t, opt); if (r) { std::string s; r->dump(s); } });
     c.entries.push_back([t] { jsoncons::csv::csv_options opt; opt.assume_header(true); std::error_code ec; jsoncons::csv::csv_string_cursor cur(t, opt, ec); int n = 0; while (!ec && !cur.done() && ++n < 10000) cur.next(ec); });
 }
 static void add_toon(Case& c, const std::string& t) {
@@ -59,7 +64,7 @@ int main(int argc, char** argv) {
     std::vector<Space> spaces = {
         {"json", {{"{", "}", "[", "]", ",", ":", "\"", "\\", "/", "*", "0", "1", "-", "+", ".", "e", " ", "\n", "t", "r", "u", "f", "a", "l", "s", "n", "\x01", "\xc3", "\xa9", "\xff"}, thorough ? 5 : 4}, add_json},
         {"csv", {{"a", "1", ",", ";", "\"", "'", "\n", "\r", " ", "#", "\\", "-", "."}, thorough ? 6 : 5}, add_csv},
-        {"toon", {{"a", "1", ":", " ", "\n", "-", "[", "]", ",", "\"", "{", "}", "|", "\t", "#", "\\"}, thorough ? 5 : 4}, add_toon},
+        {"toon", {{"a", "1", ":", " ", "\n", "-", "[", "]", ",", "\"", "{", "}", "|", "\t", "#", "\\", "e", ".", "99999999999999999999999", "0"}, thorough ? 5 : 4}, add_toon},
         {"pointer", {{"/", "~", "0", "1", "a", "-", "2"}, thorough ? 7 : 6}, add_pointer},
         {"uri", {{"a", ":", "/", "?", "#", "@", "[", "]", "%", "4", ".", "g"}, thorough ? 6 : 5}, add_uri},
     };
